@@ -2927,3 +2927,8 @@ def bytes_starts_with(ex, m, a, fr, dest):
     if cx is None or cy is None:
         raise Unsupported('symbolic byte ends_with')
     return cx.endswith(cy)
+
+
+@model(r'<(?:std::ffi::)?OsString as (?:std::ops::)?Deref>::deref|<(?:std::ffi::)?OsString as AsRef<(?:std::ffi::)?OsStr>>::as_ref|(?:std::ffi::)?OsString::as_os_str')
+def osstring_deref(ex, m, a, fr, dest):
+    return a[0]
